@@ -537,6 +537,8 @@ func genQueryCell(ld *loader, facts *[]fact, files map[string]string) {
 	s.structFields("ShapeIndex", "ShapeIndex_fields")
 	s.extract("ShapeIndex.Reset", "ShapeIndex_Reset")
 	s.extract("ShapeIndex.Add", "ShapeIndex_Add")
+	s.extract("ShapeIndex.Remove", "ShapeIndex_Remove")
+	s.extract("ShapeIndex.applyUpdatesInternal", "ShapeIndex_applyUpdatesInternal")
 	s.extract("EdgeQuery.Reset", "EdgeQuery_Reset")
 	// the distance targets: fields (no cache of anything derived from the target's index), the setters the
 	// index targets forward to their own query, capBound, maxBruteForceIndexSize
